@@ -16,10 +16,32 @@ build() {
         exit 2
     fi
 }
+build_debug() {
+    if ! (cd "$ROOT/sim" && cargo build --offline >"$ROOT/target.build.log" 2>&1); then
+        echo "harness error: dev-profile build of fpsim against /repo failed (see $ROOT/target.build.log)" >&2
+        tail -n 30 "$ROOT/target.build.log" >&2
+        exit 2
+    fi
+}
 case "${1:-}" in
     build) build; exit 0 ;;
-    replay) build; exec "$ROOT/target/release/fpsim" replay "$2" ;;
-    C15|C16|C20) build; exec "$ROOT/target/release/fpsim" check "$1" "${2:-quick}" ;;
+    replay)
+        build
+        # a replay file found by the dev-profile pass is replayed with the dev-profile binary
+        if grep -q '"profile": *"debug"' "$2" 2>/dev/null; then
+            build_debug; exec "$ROOT/target/debug/fpsim" replay "$2"
+        fi
+        exec "$ROOT/target/release/fpsim" replay "$2" ;;
+    C15|C16|C20)
+        build
+        if [ "${2:-quick}" = thorough ] && [ -z "${VERIF_SKIP_DEBUG_PASS:-}" ]; then
+            # reduced pass with the library built under the dev profile (debug assertions, overflow checks)
+            build_debug
+            VERIF_PROFILE_PASS=debug "$ROOT/target/debug/fpsim" check "$1" quick
+            code=$?
+            if [ "$code" != 0 ]; then exit "$code"; fi
+        fi
+        exec "$ROOT/target/release/fpsim" check "$1" "${2:-quick}" ;;
     selfcheck) build; exec "$ROOT/target/release/fpsim" selfcheck ;;
     *) echo "usage: $0 <C15|C16|C20> <quick|thorough> | replay <file> | build | selfcheck" >&2; exit 2 ;;
 esac
